@@ -236,3 +236,67 @@ pub fn structured_decimals(ints: &[BigInt], scales: &[i128], pads: &[u64]) -> Ve
     }
     out
 }
+
+/// Pairs that are NOT value-equal but differ from a value-equal pair (A = B*10^k at scale k, B at scale 0)
+/// in exactly one place: one 32-bit word of A dropped, truncated or changed by +-2^(32j) for every word index j
+/// up to two words ABOVE the top word of A, or one decimal digit of A changed (+-1, +-9 at 10^j) at EVERY digit
+/// position j.  A comparison that skips a word, a digit position, or the words beyond the shorter operand
+/// calls such a pair equal.  Gaps k: 1..=kmax and 38, 39.
+pub fn near_equal_pairs(kmax: u64, bs: &[BigInt]) -> Vec<(Dec, Dec)> {
+    use num_traits::Zero;
+    let mut out = vec![];
+    let ks: Vec<u64> = (1..=kmax).chain([38, 39]).collect();
+    for &k in &ks {
+        let p10 = spec::pow10(k);
+        for b in bs {
+            let prod = b * &p10;
+            let words = ((prod.bits() + 31) / 32) as usize;
+            let mut cands: Vec<BigInt> = vec![];
+            for j in 1..=words + 2 {
+                let w = BigInt::from(1) << (32 * j);
+                cands.push(&prod % &w);
+                cands.push(&prod + &w);
+                cands.push(&prod + &w * 7);
+                if prod > w {
+                    cands.push(&prod - &w);
+                }
+                cands.push(&prod >> (32 * j));
+            }
+            let nd = spec::ndigits(&prod);
+            let mut pj = BigInt::from(1);
+            for _j in 0..=nd {
+                for d in [1i64, 9] {
+                    cands.push(&prod + &pj * d);
+                    if prod > &pj * d {
+                        cands.push(&prod - &pj * d);
+                    }
+                }
+                pj *= 10;
+            }
+            for a in cands {
+                if a.is_zero() || a == prod {
+                    continue;
+                }
+                out.push((Dec { n: a.clone(), s: k as i128 }, Dec { n: b.clone(), s: 0 }));
+                out.push((Dec { n: -a, s: k as i128 }, Dec { n: -b.clone(), s: 0 }));
+            }
+        }
+    }
+    out
+}
+
+/// The five decision shapes of a discarded digit string of length l: 10..01 (far below half), 49..9 (just
+/// below), 50..0 (the tie), 50..01 (just above), 9..9 (carry): used at EVERY length l up to a bound, so that any
+/// estimate of the discarded length (digit counts from bit lengths, chunk counts) is exercised at every value
+pub fn decision_tails(l: usize) -> Vec<String> {
+    assert!(l >= 1);
+    let mk = |first: char, mid: char, last: char| -> String { (0..l).map(|i| if i == 0 { first } else if i == l - 1 { last } else { mid }).collect() };
+    let mut v = vec![mk('4', '9', '9'), mk('5', '0', '0'), mk('9', '9', '9')];
+    if l >= 2 {
+        v.push(mk('1', '0', '1'));
+        v.push(mk('5', '0', '1'));
+    } else {
+        v.push("1".to_string());
+    }
+    v
+}
